@@ -742,4 +742,98 @@ theorem mapList_succ (n : Nat) (ih : AllSpec n) (f l : Val) (s s' : St) (v : Val
         exact ⟨kept_vok_mono hk2 hv1, hv2⟩
   · simp only [run_err] at hex; cases hex
 
+/-! ## `forceLazy` -/
+
+theorem bind_ok_inv {α β} (m : M α) (k : α → M β) (s s' : St) (b : β) (h : (m >>= k).run s = (.ok b, s')) :
+    ∃ a s1, m.run s = (.ok a, s1) ∧ (k a).run s1 = (.ok b, s') := by
+  rw [run_bind] at h
+  rcases hm : m.run s with ⟨r, s1⟩
+  rw [hm] at h
+  cases r with
+  | error e => cases h
+  | ok a => exact ⟨a, s1, rfl, h⟩
+
+/-- `restore` after the nested run of a forced lazy: the scope stack set aside comes back -/
+theorem restoreSt_force (s1 s3 : St) (hd : s3.data.length = s1.data.length) (ha : s3.addr = s1.addr)
+    (hs : s3.suspended = s1.linear :: s1.suspended) :
+    restoreSt (captureOf s1) s3 = { s3 with linear := s1.linear, suspended := s1.suspended, curfunc := s1.curfunc, pc := s1.pc } := by
+  have h1 : s3.suspended.length > (captureOf s1).susp := by rw [hs]; show (s1.linear :: s1.suspended).length > s1.suspended.length; simp
+  have hidx : s3.suspended.length - (captureOf s1).susp - 1 = 0 := by
+    rw [hs]; show (s1.linear :: s1.suspended).length - s1.suspended.length - 1 = 0; simp
+  have hdrop : s3.suspended.length - (captureOf s1).susp = 1 := by
+    rw [hs]; show (s1.linear :: s1.suspended).length - s1.suspended.length = 1; simp
+  simp only [restoreSt, linAt, suspAt, h1, if_true, hidx, hdrop]
+  have e1 : truncate s3.addr (captureOf s1).addrSize = s1.addr := by rw [ha]; exact truncate_self _
+  have e2 : truncate (s3.suspended.getD 0 []) (captureOf s1).linearSize = s1.linear := by
+    rw [hs]; exact truncate_self _
+  have e3 : truncate s3.data (captureOf s1).dataSize = s3.data := by
+    show truncate s3.data s1.data.length = _; rw [← hd]; exact truncate_self _
+  rw [e1, e2, e3, hs]
+  simp [ha]
+  exact ⟨rfl, rfl⟩
+
+theorem force_succ (n : Nat) (ih : AllSpec n) (id : Nat) (s s' : St) (v : Val) (hw : WF s)
+    (hex : (forceLazy (n + 1) id).run s = (.ok v, s')) : Kept s s' ∧ vok s'.fns.length v = true := by
+  unfold VM.forceLazy at hex
+  rw [run_bind, run_get] at hex
+  dsimp only at hex
+  split at hex
+  · simp only [run_err] at hex; cases hex
+  · rename_i lz hlz
+    have hlzm := hw.lazies lz (List.mem_of_getElem? hlz)
+    split at hex
+    · rename_i w hval
+      simp only [run_pure] at hex
+      cases hex
+      exact ⟨Kept.refl hw, hlzm.2 v hval⟩
+    · rw [run_bind] at hex
+      rcases hg : (runGen (compile (isFnScope s) {} lz.e)).run s with ⟨r, s1⟩
+      rw [hg] at hex
+      cases r with
+      | error er => cases hex
+      | ok ct =>
+        obtain ⟨code, t⟩ := ct
+        obtain ⟨hw1, he1, g1, g2, g3, g4, g5, g6, g7, g8, g9, hcode, hver⟩ := wf_runGen (isFnScope s) lz.e code t hw hlzm.1 hg
+        dsimp only at hex
+        -- storing the value in the lazy object
+        have finish : ∀ (t0 t1 : St) (w : Val), WF t0 → vok t0.fns.length w = true →
+            (do modify (fun s => { s with lazies := s.lazies.set id ({ lz with value := some w } : LazyObj) })
+                pure w : M Val).run t0 = (.ok v, t1) → Kept t0 t1 ∧ w = v := by
+          intro t0 t1 w hw0 hvw h
+          simp only [run_bind, run_modify, run_pure] at h
+          cases h
+          refine ⟨⟨?_, TExt.same rfl rfl, ⟨rfl, rfl, rfl, rfl, rfl, rfl⟩⟩, rfl⟩
+          refine hw0.grow (TExt.same rfl rfl) (fun j h1 h2 => absurd h2 (Nat.not_lt.mpr h1)) rfl rfl rfl ?_ (fun c h => Or.inl h)
+          intro l hl
+          rcases List.mem_or_eq_of_mem_set hl with hm | rfl
+          · left; exact hm
+          · right
+            exact ⟨hlzm.1, fun x hx => by cases hx; exact hvw⟩
+        split at hex
+        · obtain ⟨hk, rfl⟩ := finish s1 s' .nil hw1 rfl hex
+          exact ⟨(show Kept s s1 from ⟨hw1, he1, ⟨by rw [g1], g2, g3, g4, g5, g6⟩⟩).trans hk, rfl⟩
+        · rw [run_bind, run_mkFunction] at hex
+          dsimp only at hex
+          rw [run_bind, run_capture] at hex
+          dsimp only at hex
+          rw [run_bind, run_modify] at hex
+          dsimp only at hex
+          obtain ⟨w, s4, hn, hfin⟩ := bind_ok_inv _ _ _ _ _ hex
+          obtain ⟨s3, h1, hw3, he3, hv3, d3, l3, a3, c3, su3⟩ :=
+            thunk_run n ih "lazyArgForce" s1 s4 code lz.stack (some lz.curfunc) w hw1 hcode hver
+              (captureOf s1) lz.stack (s1.linear :: s1.suspended) hn
+          have hrs : s4 = { s3 with linear := s1.linear, suspended := s1.suspended, curfunc := s1.curfunc, pc := s1.pc } := by
+            rw [h1]
+            have := restoreSt_force s1 s3 (by have := congrArg List.length d3; simpa using this) a3 su3
+            exact this
+          have hw4 : WF s4 := by rw [h1]; exact hw3.restore _
+          have hk14 : Kept s1 s4 := by
+            refine ⟨hw4, ?_, ?_⟩
+            · rw [hrs]; exact he3.trans (TExt.same rfl rfl)
+            · rw [hrs]
+              exact ⟨d3, rfl, a3, rfl, rfl, rfl⟩
+          have hv4 : vok s4.fns.length w = true := by rw [hrs]; exact hv3
+          obtain ⟨hk, rfl⟩ := finish s4 s' w hw4 hv4 hfin
+          exact ⟨((show Kept s s1 from ⟨hw1, he1, ⟨by rw [g1], g2, g3, g4, g5, g6⟩⟩).trans hk14).trans hk, kept_vok_mono hk hv4⟩
+
 end ZygoVerif.RunInv
